@@ -24,6 +24,16 @@ fn nth_string(mut i: u64) -> Vec<u8> {
 }
 fn total_upto(len: u32) -> u64 { let k = ALPHABET.len() as u64; (1..=len).map(|l| k.pow(l)).sum() }
 
+/// text of a double: fixed special cases, or any finite bit pattern (all magnitudes, subnormals) in its
+/// shortest round-trip decimal form
+fn gen_double(r: &mut Rng) -> Vec<u8> {
+    if r.chance(1, 3) { return r.pick(&["1.5", "0", "-0", "inf", "-inf", "1e300", "0.1", "3", "5e-324", "2.2250738585072014e-308", "0.30000000000000004", "1e-10", "-0.000123456789012345", "1.7976931348623157e308", "123456789.12345679"]).as_bytes().to_vec(); }
+    loop {
+        let f = f64::from_bits(r.next());
+        if f.is_finite() { return format!("{:?}", f).into_bytes(); }
+    }
+}
+
 fn gen_tree(r: &mut Rng, depth: u32) -> R {
     let leaf = depth >= 5 || r.chance(2, 3);
     let bytes = |r: &mut Rng| -> Vec<u8> { match r.below(6) { 0 => vec![], 1 => { let n = r.below(20) as usize; r.bytes(n) } 2 => b"\r\n".to_vec(), 3 => b"PING".to_vec(), 4 => { let n = r.below(300) as usize; vec![b'x'; n] } _ => b"hello".to_vec() } };
@@ -31,7 +41,7 @@ fn gen_tree(r: &mut Rng, depth: u32) -> R {
     if leaf {
         match r.below(9) {
             0 => R::Simple(line(r)), 1 => R::Err(line(r)), 2 => R::Int(*r.pick(&[0i64, 1, -1, i64::MAX, i64::MIN, 42])), 3 => R::Bulk(bytes(r)), 4 => R::Nil, 5 => R::NilArr,
-            6 => R::Null3, 7 => R::Bool(r.chance(1, 2)), _ => R::Double(r.pick(&["1.5", "0", "-0", "inf", "-inf", "1e300", "0.1", "3"]).as_bytes().to_vec()),
+            6 => R::Null3, 7 => R::Bool(r.chance(1, 2)), _ => R::Double(gen_double(r)),
         }
     } else {
         let n = r.below(4) as usize;
